@@ -6,6 +6,7 @@ import (
 
 	"github.com/DataDog/sketches-go/ddsketch"
 	"github.com/DataDog/sketches-go/ddsketch/pb/sketchpb"
+	"github.com/DataDog/sketches-go/ddsketch/stat"
 	"google.golang.org/protobuf/proto"
 
 	"verif/harness/internal/core"
@@ -176,9 +177,6 @@ func (h *histGen) gen(n int) []skOp {
 	ops := make([]skOp, 0, n)
 	for len(ops) < n {
 		k := h.r.Pick(h.weights[:]...)
-		if h.exact && k == opProtoRoundTrip {
-			continue
-		}
 		op := skOp{kind: k}
 		switch k {
 		case opAdd:
@@ -376,8 +374,37 @@ func rawApply(s *mon.Sketch, spec *gen.StoreSpec, mp **gen.Map, op skOp) (err er
 		*spec = op.target
 	case opProtoRoundTrip:
 		if s.Exact {
-			// the protobuf form carries no exact statistics: round-trip through Copy instead
-			*s = s.Copy()
+			// the protobuf form carries no exact statistics: the sketch goes through it, the statistics through
+			// their getters, and both are put together again by the public constructors made for that
+			mn, e1 := s.E.GetMinValue()
+			mx, e2 := s.E.GetMaxValue()
+			if s.E.GetCount() == 0 || e1 != nil || e2 != nil {
+				// nothing the getters can describe (an empty sketch; or statistics without bins, which only an
+				// interrupted decode leaves behind): the binary round trip into the same target instead
+				var b []byte
+				s.I().Encode(&b, false)
+				d, e := mon.Decode(true, b, op.target, nil)
+				if e != nil {
+					return e
+				}
+				*s = d
+				*spec = op.target
+				return nil
+			}
+			st, e := stat.NewSummaryStatisticsFromData(s.E.GetCount(), s.E.GetSum(), mn, mx)
+			if e != nil {
+				return e
+			}
+			d, e := fromProto(s.E.DDSketch.ToProto(), op.target)
+			if e != nil {
+				return e
+			}
+			ne, e := ddsketch.NewDDSketchWithExactSummaryStatisticsFromData(d, st)
+			if e != nil {
+				return e
+			}
+			*s = mon.Sketch{Exact: true, E: ne, P: ne.DDSketch}
+			*spec = op.target
 			return nil
 		}
 		pb := s.P.ToProto()
